@@ -22,6 +22,11 @@ package main
 // math.Sqrt, calls of such methods on the same receiver, and external functions whose value is
 // an input of the model (timebase.Epoch(): an extra parameter, one value per call of the leaf).
 // Blocks that only log (`if x.log != nil { … }`) are skipped.
+// Sixth generation: `switch tag { case c: … default: … }`, `x.f++`, calls on the receiver's
+// `clk` field — Epoch() and Now() are extra parameters (one value per call of the leaf), Step and
+// Adjust are appended to a list of recorded actions returned with the result —, math.Pow's
+// result as a parameter (it is not correctly rounded: an input of the model), math.Ceil,
+// time.Duration.Abs, panic(...) inside such methods (Option result), log statements skipped.
 // Anything else is reported as a broken tie.
 
 import (
@@ -77,6 +82,10 @@ var leaves = []leafSpec{
 	{"core/client", "combine", "client_combine"},
 	{"core/client", "NtimedFilter.Reset", "client_NtimedFilter_Reset"},
 	{"core/client", "NtimedFilter.Do", "client_NtimedFilter_Do"},
+	// sixth generation: tagged switch, x++ on fields, calls through the receiver's clock
+	// (Epoch/Now: parameters; Step/Adjust: recorded actions), math.Pow as a parameter, math.Ceil,
+	// Duration.Abs, panics in receiver-updating methods, bare log calls skipped
+	{"core/sync/adjustments", "Pll.Do", "adjustments_Pll_Do"},
 }
 
 // leaves callable from other packages as pkg.Func (filled while emitting, in table order)
@@ -102,6 +111,7 @@ type leafCtx struct {
 	leafOf  map[string]string // "Recv.Name" / "Name" in this dir -> lean name
 	retOf   map[string]string
 
+	effects  bool                // the body calls clk.Step / clk.Adjust: actions are threaded as `acts`
 	zeroVars bool                // `var x T` introduces x with its zero value (fifth generation)
 	recv     string              // name of a pointer receiver whose fields the body assigns ("" = none)
 	externs  []string            // "name : Type" of external values the body reads (extra parameters)
@@ -196,6 +206,13 @@ func (c *leafCtx) isValue(e ast.Expr) bool {
 			if id, ok := f.X.(*ast.Ident); ok && id.Name == "time" && f.Sel.Name == "Unix" {
 				return true
 			}
+			if id, ok := f.X.(*ast.Ident); ok {
+				if _, ok := globalLeaf[id.Name+"."+f.Sel.Name]; ok {
+					if _, isVar := c.vars[id.Name]; !isVar {
+						return true
+					}
+				}
+			}
 			return c.isValue(f.X)
 		}
 	}
@@ -216,6 +233,16 @@ func convType(fun ast.Expr) string {
 		return convType(f.X)
 	}
 	return ""
+}
+
+func externType(name string) string {
+	switch name {
+	case "ext_clkNow":
+		return "Int"
+	case "ext_Pow":
+		return "F64.F64"
+	}
+	return "UInt64"
 }
 
 func (c *leafCtx) addExtern(name, typ string) {
@@ -272,6 +299,13 @@ func isLogOnly(st *ast.IfStmt) bool {
 
 // result: what a return hands back — the updated receiver first when the method assigns to it
 func (c *leafCtx) result(e string) string {
+	if c.effects {
+		if e == "" {
+			e = "acts"
+		} else {
+			e = "(acts, " + e + ")"
+		}
+	}
 	if c.recv != "" {
 		if e == "" {
 			e = c.recv
@@ -308,6 +342,8 @@ func leanTypeName(t string) string {
 		return "(List Int64)"
 	case "F64":
 		return "F64.F64"
+	case "ActList":
+		return "(List Go.ClkAction)"
 	}
 	return t
 }
@@ -415,6 +451,11 @@ func (c *leafCtx) expr(e ast.Expr, want string) (string, string) {
 		}
 		return c.lit(v, want), want
 	case *ast.UnaryExpr:
+		if !c.mentionsVar(x) && (want == "F64" || want == "") { // a signed constant such as -500e-6
+			if v := c.ev.eval(x, 0); v.Kind() == constant.Float || (v.Kind() == constant.Int && want == "F64") {
+				return c.lit(v, "F64"), "F64"
+			}
+		}
 		a, t := c.expr(x.X, want)
 		switch x.Op {
 		case token.SUB:
@@ -525,6 +566,35 @@ func (c *leafCtx) expr(e ast.Expr, want string) (string, string) {
 						c.addExtern("ext_Epoch", "UInt64")
 						return "ext_Epoch", "UInt64"
 					}
+				case "math.Ceil":
+					if len(x.Args) == 1 {
+						a, _ := c.expr(x.Args[0], "F64")
+						return "(F64.ceil " + a + ")", "F64"
+					}
+				case "math.Pow":
+					if len(x.Args) == 2 { // not correctly rounded: its result is an input (one value per call of the leaf)
+						c.addExtern("ext_Pow", "F64.F64")
+						return "ext_Pow", "F64"
+					}
+				}
+			}
+			// calls on the receiver's clock: l.clk.Epoch(), l.clk.Now()
+			if inner, ok := f.X.(*ast.SelectorExpr); ok && inner.Sel.Name == "clk" {
+				if id, ok := inner.X.(*ast.Ident); ok && id.Name == c.recv && c.recv != "" && len(x.Args) == 0 {
+					switch f.Sel.Name {
+					case "Epoch":
+						c.addExtern("ext_clkEpoch", "UInt64")
+						return "ext_clkEpoch", "UInt64"
+					case "Now":
+						c.addExtern("ext_clkNow", "Int")
+						return "ext_clkNow", "GoTime"
+					}
+				}
+			}
+			if c.isValue(f.X) && f.Sel.Name == "Abs" && len(x.Args) == 0 {
+				if recv, t := c.peek(f.X); t == "Int64" { // time.Duration.Abs()
+					recv, _ = c.expr(f.X, "Int64")
+					return "(Go.Duration.abs " + recv + ")", "Int64"
 				}
 			}
 		}
@@ -551,7 +621,7 @@ func (c *leafCtx) expr(e ast.Expr, want string) (string, string) {
 			args = append(args, s)
 		}
 		for _, e := range c.extOf[name] {
-			c.addExtern(e, "UInt64")
+			c.addExtern(e, externType(e))
 			args = append(args, e)
 		}
 		if c.recvOf[name] {
@@ -705,7 +775,22 @@ func assigned(stmts []ast.Stmt, set map[string]bool) {
 					if id, ok := f.X.(*ast.Ident); ok {
 						set[id.Name] = true
 					}
+					if inner, ok := f.X.(*ast.SelectorExpr); ok && inner.Sel.Name == "clk" {
+						set["acts"] = true // l.clk.Step / l.clk.Adjust: a recorded action
+					}
 				}
+			}
+		}
+		if ids, ok := s.(*ast.IncDecStmt); ok {
+			if se, ok := ids.X.(*ast.SelectorExpr); ok {
+				if id, ok := se.X.(*ast.Ident); ok {
+					set[id.Name] = true
+				}
+			}
+		}
+		if sw, ok := s.(*ast.SwitchStmt); ok {
+			for _, cc := range sw.Body.List {
+				assigned(cc.(*ast.CaseClause).Body, set)
 			}
 		}
 		if i, ok := s.(*ast.IfStmt); ok {
@@ -929,6 +1014,27 @@ func (c *leafCtx) block(stmts []ast.Stmt, tail string, ind string) string {
 		}
 		if ce, ok := st.X.(*ast.CallExpr); ok && c.recv != "" {
 			if f, ok := ce.Fun.(*ast.SelectorExpr); ok {
+				if inner, ok := f.X.(*ast.SelectorExpr); ok {
+					if id, ok := inner.X.(*ast.Ident); ok && id.Name == c.recv {
+						if inner.Sel.Name == "log" && strings.HasPrefix(f.Sel.Name, "Log") {
+							return c.block(rest, tail, ind) // logging has no effect on the model
+						}
+						if inner.Sel.Name == "clk" && c.effects {
+							var args []string
+							want := map[string][]string{"Step": {"Int64"}, "Adjust": {"Int64", "Int64", "F64"}}[f.Sel.Name]
+							if want == nil || len(want) != len(ce.Args) {
+								c.fail("unsupported call on the clock: %s", f.Sel.Name)
+								return "0"
+							}
+							for i, a := range ce.Args {
+								s, _ := c.expr(a, want[i])
+								args = append(args, s)
+							}
+							act := "(Go.ClkAction." + strings.ToLower(f.Sel.Name) + " " + strings.Join(args, " ") + ")"
+							return c.takeBinds(ind) + "let acts : List Go.ClkAction := acts ++ [" + act + "]\n" + ind + c.block(rest, tail, ind)
+						}
+					}
+				}
 				if id, ok := f.X.(*ast.Ident); ok && id.Name == c.recv {
 					name := strings.TrimPrefix(c.vars[c.recv], "S_") + "." + f.Sel.Name
 					if ln, ok := c.leafOf[name]; ok && c.recvOf[name] && c.retOf[name] == "" {
@@ -938,7 +1044,7 @@ func (c *leafCtx) block(stmts []ast.Stmt, tail string, ind string) string {
 							args = append(args, s)
 						}
 						for _, e := range c.extOf[name] {
-							c.addExtern(e, "UInt64")
+							c.addExtern(e, externType(e))
 							args = append(args, e)
 						}
 						return "let " + c.recv + " : " + leanTypeName(c.vars[c.recv]) + " := (" + ln + " " + strings.Join(args, " ") + ")\n" + ind + c.block(rest, tail, ind)
@@ -1011,7 +1117,62 @@ func (c *leafCtx) block(stmts []ast.Stmt, tail string, ind string) string {
 		}
 		return "let " + tup + " :=\n" + ind + "  if " + cond + " then\n" + ind + "    " + thenE + "\n" + ind + "  else\n" + ind + "    " + elseE +
 			"\n" + ind + c.block(rest, tail, ind)
+	case *ast.IncDecStmt:
+		se, ok := st.X.(*ast.SelectorExpr)
+		if !ok || c.recv == "" {
+			c.fail("unsupported ++/--")
+			return "0"
+		}
+		rid, ok := se.X.(*ast.Ident)
+		if !ok || rid.Name != c.recv {
+			c.fail("++/-- on a field of something other than the receiver")
+			return "0"
+		}
+		cur, ft := c.expr(se, "")
+		op := " + "
+		if st.Tok == token.DEC {
+			op = " - "
+		}
+		return "let " + c.recv + " : " + leanTypeName(c.vars[c.recv]) + " := { " + c.recv + " with " + se.Sel.Name + " := " + cur + op + "(1 : " + ft + ") }\n" + ind + c.block(rest, tail, ind)
 	case *ast.SwitchStmt:
+		if st.Init == nil && st.Tag != nil { // switch tag { case c: … default: … }: the statements after it continue every case
+			tag, tt := c.expr(st.Tag, "")
+			var out strings.Builder
+			var def []ast.Stmt
+			hasDef := false
+			saved := map[string]string{}
+			for k, v := range c.vars {
+				saved[k] = v
+			}
+			restore := func() {
+				c.vars = map[string]string{}
+				for k, v := range saved {
+					c.vars[k] = v
+				}
+			}
+			for _, cc := range st.Body.List {
+				cl := cc.(*ast.CaseClause)
+				if cl.List == nil {
+					def, hasDef = cl.Body, true
+					continue
+				}
+				var conds []string
+				for _, e := range cl.List {
+					v, _ := c.expr(e, tt)
+					conds = append(conds, "("+tag+" == "+v+")")
+				}
+				restore()
+				body := c.block(append(append([]ast.Stmt{}, cl.Body...), rest...), tail, ind+"  ")
+				out.WriteString("if " + strings.Join(conds, " || ") + " then\n" + ind + "  " + body + "\n" + ind + "else ")
+			}
+			restore()
+			if hasDef {
+				out.WriteString("\n" + ind + "  " + c.block(append(append([]ast.Stmt{}, def...), rest...), tail, ind+"  "))
+			} else {
+				out.WriteString("\n" + ind + "  " + c.block(rest, tail, ind+"  "))
+			}
+			return out.String()
+		}
 		if st.Init != nil || st.Tag != nil {
 			c.fail("only tagless switch is supported")
 			return "0"
@@ -1067,6 +1228,36 @@ func structFields(c0 *leafCtx, structs map[string][][2]string, name string, st *
 		}
 	}
 	return fs
+}
+
+// callsClock: the body calls Step or Adjust on the receiver's clk field.
+func callsClock(fd *ast.FuncDecl, recv string) bool {
+	found := false
+	ast.Inspect(fd.Body, func(n ast.Node) bool {
+		if ce, ok := n.(*ast.CallExpr); ok {
+			if f, ok := ce.Fun.(*ast.SelectorExpr); ok && (f.Sel.Name == "Step" || f.Sel.Name == "Adjust") {
+				if inner, ok := f.X.(*ast.SelectorExpr); ok && inner.Sel.Name == "clk" {
+					if id, ok := inner.X.(*ast.Ident); ok && id.Name == recv {
+						found = true
+					}
+				}
+			}
+		}
+		return !found
+	})
+	return found
+}
+
+// hasPanicStmt: the body contains an explicit panic(...) statement
+func hasPanicStmt(n ast.Node) bool {
+	found := false
+	ast.Inspect(n, func(n ast.Node) bool {
+		if s, ok := n.(ast.Stmt); ok && isPanic(s) {
+			found = true
+		}
+		return !found
+	})
+	return found
 }
 
 // assignsReceiver: the body assigns to a field of the receiver, or calls (as a statement) a
@@ -1246,12 +1437,18 @@ func emitLeaves(repo string, parsed map[string][]*ast.File, fset *token.FileSet,
 					ret = "T:" + strings.Join(rts, ",")
 				}
 			}
+			if c.recv != "" && callsClock(fd, c.recv) {
+				c.effects = true
+				c.vars["acts"] = "ActList"
+				prologue += "let acts : List Go.ClkAction := []\n  "
+			}
 			c.zeroVars = gen5
 			c.ret = ret
 			if strings.HasPrefix(ret, "T:") {
 				c.ret = ""
 			}
 			c.panics = hasPanic(fd.Body)
+			c.panics = hasPanicStmt(fd.Body) || (hasPanic(fd.Body) && c.recv == "")
 			endTail := ""
 			if c.recv != "" && fd.Type.Results == nil {
 				endTail = c.result("")
@@ -1273,8 +1470,15 @@ func emitLeaves(repo string, parsed map[string][]*ast.File, fset *token.FileSet,
 				}
 				rtName = "(" + strings.Join(ps, " × ") + ")"
 			}
-			if c.recv != "" {
+			if c.effects {
 				if ret == "" {
+					rtName = "(List Go.ClkAction)"
+				} else {
+					rtName = "((List Go.ClkAction) × " + rtName + ")"
+				}
+			}
+			if c.recv != "" {
+				if ret == "" && !c.effects {
 					rtName = leanTypeName(c.vars[c.recv])
 				} else {
 					rtName = "(" + leanTypeName(c.vars[c.recv]) + " × " + rtName + ")"
